@@ -408,6 +408,32 @@ class Collector:
                 self._collect(cb, cmap, facts, chain + ((body, site),), depth + 1, out, un, active, in_pred)
 
 
+def _answer_asserted(ev):
+    """the Result of the call event is tested by an always-compiled assertion (`assert!(r.is_ok())`) or unwrapped: a refusal stops
+    the call with a panic, it is not silently ignored"""
+    b = ev.body
+    bb = ev.site[0]
+
+    def is_this_call(x):
+        return x[0] == "call" and len(x) > 3 and x[3] == bb and x[1].split("::")[-1] == ev.name
+    try:
+        for f, _bi in b.compiled_assertions():
+            if f[0] == "bool" and f[2] is True:
+                ce = strip_load(f[1])
+                if ce[0] == "call" and ce[1].split("::")[-1] == "is_ok" and ce[2] and mentions(ce[2][0], is_this_call):
+                    return True
+            if f[0] == "in" and f[2] <= frozenset(["Ok"]) and mentions(f[1], is_this_call):
+                return True
+        for site, t in b.calls():
+            if t["callee"].get("name") in ("unwrap", "expect") and "Result" in t["callee"].get("decl", ""):
+                args = [strip_load(deref_addr(b, a)) for a in b.call_args(t, site)]
+                if args and mentions(args[0], is_this_call):
+                    return True
+    except Exception:
+        return False
+    return False
+
+
 def classify(ev):
     """turn a raw event into zero or more state events: list of (kind, dict)"""
     out = []
@@ -460,7 +486,10 @@ def classify(ev):
     sl = slot_of(a0, "Sodg::branches")
     if sl is not None and krate == "microstack":
         if name not in STACK_READONLY:
-            out.append(("mem_call", {"graph": sl[0], "i": sl[1], "how": sl[2], "op": name, "args": args[1:], "loc": a0}))
+            op = name
+            if name == "try_push" and _answer_asserted(ev):
+                op = "push"      # `assert!(list.try_push(v).is_ok())` / `.try_push(v).unwrap()`: push with the panic spelled out
+            out.append(("mem_call", {"graph": sl[0], "i": sl[1], "how": sl[2], "op": op, "args": args[1:], "loc": a0}))
         return out
     # whole-map operations
     if a0[0] == "field" and a0[2] in ("Sodg::vertices", "Sodg::stores", "Sodg::branches") and krate == "emap":
